@@ -135,8 +135,8 @@ def c01(params, rnd):
 
     for i in range(params.get("messages", 2000)):
         m = gen_message(rnd)
-        mode = rnd.choice(["alloc", "alloc", "possdup", "seqreset", "raw"])
-        if m.msg_type == FMsg.SEQUENCERESET and mode in ("alloc", "possdup"):
+        mode = rnd.choice(["alloc", "alloc", "possdup", "seqreset", "raw", "possdup_n", "possdup_n_stale", "seqreset_str"])
+        if m.msg_type == FMsg.SEQUENCERESET and mode in ("alloc", "possdup", "possdup_n", "possdup_n_stale"):
             mode = "seqreset"  # (a SequenceReset always carries its own number)
         s = session(rnd.randint(1, 10 ** 6))
         want_seq = s.next_num_out
@@ -145,8 +145,14 @@ def c01(params, rnd):
             m.set(43, "Y")
             m.set(34, want_seq + 7)
             want_seq += 7
-        elif mode == "seqreset":
-            m.msg_type = FMsg.SEQUENCERESET
+        elif mode in ("possdup_n", "possdup_n_stale"):
+            # PossDupFlag=N is not a retransmission: a new number is allocated, also when the message object still
+            # carries an old MsgSeqNum
+            m.set(43, "N")
+            if mode == "possdup_n_stale":
+                m.set(34, 3)
+        elif mode in ("seqreset", "seqreset_str"):
+            m.msg_type = FMsg.SEQUENCERESET if mode == "seqreset" else "4"  # (the type may be given as plain text)
             m.set(34, 5)
             want_seq = 5
         elif mode == "raw":
@@ -154,11 +160,19 @@ def c01(params, rnd):
             want_seq = 12345
             kw = {"raw_seq_num": True}
         before = structure(m)
+        n0 = s.next_num_out
         try:
             raw = encode_bytes(cd, m, s, **kw)
         except UnicodeEncodeError:
             continue
+        except BaseException as e:  # noqa
+            n += 1
+            bad("the encoder refused a well-formed message (mode %s): %s" % (mode, type(e).__name__), m, b"")
+            continue
         n += 1
+        allocates = mode in ("alloc", "possdup_n", "possdup_n_stale")
+        if s.next_num_out != n0 + (1 if allocates else 0):
+            bad("session counter: %d -> %d in mode %s" % (n0, s.next_num_out, mode), m, raw)
         try:
             d, consumed, r = cd.decode(raw)
         except BaseException as e:  # noqa
@@ -197,6 +211,8 @@ def corpus():
     g = FIXMessage(FMsg.NEWORDERSINGLE, {11: "ord-2", 55: "T"})
     g.set_group(FTag.NoPartyIDs, [{448: "p1", 447: "D", 452: "1"}, {448: "p2", 447: "D", 452: "3"}])
     msgs.append(g)
+    # a value that looks like the start of a frame (legal: a frame ends where BodyLength says)
+    msgs.append(FIXMessage(FMsg.NEWS, {148: "note", 58: "we only speak 8=FIX.4.4 here"}))
     return [encode_bytes(cd, m, s) for m in msgs]
 
 
@@ -494,6 +510,17 @@ def c03(params, rnd):
                 pairs = rnd.sample(pairs, lim)
             for a, b in pairs:
                 run(stream, fs, [a, b], "two cuts")
+    # the frame with marker text in a value: every cut position (the frame must not be given up on half way)
+    mk = [frames[1], frames[6], frames[0]]
+    stream = b"".join(mk)
+    for a in range(1, len(stream)):
+        run(stream, mk, [a], "one cut, marker text in a value")
+    # bursts: many small frames in one read (and the same stream in two reads / 1-byte reads)
+    for burst in (33, 45, 100):
+        fs = [frames[i % 2] for i in range(burst)]
+        stream = b"".join(fs)
+        run(stream, fs, [], "burst in one read")
+        run(stream, fs, [len(stream) // 2], "burst in two reads")
     # large streams: random multi-cut, 1-byte reads, garbage between frames
     for i in range(params.get("streams", 60)):
         fs = [rnd.choice(frames) for _ in range(rnd.randint(1, 8))]
